@@ -77,6 +77,14 @@ def make_case(seed: int, tier: str, prop: str, opts=None) -> Dict[str, Any]:
         if rng.random() < 0.6:
             V["stub"] = "stub"
             V["transport"] = rng.choice(["gated", "stock"])
+    twin = None
+    if V.get("cfg_api") is not None and V["transport"] in ("gated", "stock") and rng.random() < 0.5:
+        # a second instance started from the *same* sim config entry (same explicit api_version),
+        # announcing the same or another version
+        twin = copy.deepcopy(V)
+        twin["sid"] = "T"
+        twin["api"] = rng.choice([V["api"], rng.choice(VERSIONS), rng.choice(VERSIONS)])
+        twin["beh"] = dict(twin["beh"], bseed=rng.randrange(1 << 30))
     conns = []
     for i in range(n - 1):
         a, b = (i, i + 1) if rng.random() < 0.7 else (i + 1, i)
@@ -85,6 +93,9 @@ def make_case(seed: int, tier: str, prop: str, opts=None) -> Dict[str, Any]:
         conns.append({"src": a, "se": 0, "dst": b, "de": 0, "pairs": [[ua, va]], "shift": 0, "weak": False})
     cfg = {"cache": rng.random() < 0.5, "lazy": rng.random() < 0.5, "debug": False, "mli": 100,
            "start_seed": None, "connect_seed": None, "order_seed": None, "iteration_cost": 0.0}
+    if twin is not None:
+        twin["cfg_entry"] = vi
+        sims.append(twin)
     sc = {"groups": [None], "sims": sims, "conns": conns, "until": rng.choice([2, 3, 4, 5]),
           "config": cfg, "versioned": vi}
     case = {"scenario": sc, "schedule": gen.gen_schedule(seed, sc, rng.choice([0, 1, 2, 3]))}
@@ -173,6 +184,17 @@ def run_case(case, prop) -> Dict[str, Any]:
         if e2 == "ok" and sr2 is not None and sr2[2] != "ok":
             viols.append({"kind": "other_simulator_rejected", "features": {"stub": s_.get("stub", "stub")},
                           "detail": {"sim": s_, "start_result": sr2}})
+        if s_.get("cfg_entry") is not None:
+            st["second_start_from_same_config_entry"] = 1
+            if e2 == "reject" and sr2 is not None and sr2[2] == "ok":
+                viols.append({"kind": "start_accepted_but_must_reject",
+                              "features": {"api": s_.get("api"), "stub": s_.get("stub", "stub"),
+                                           "transport": "local", "second_start_of_entry": True},
+                              "detail": {"sim": s_, "first": V}})
+            elif e2 == "reject" and sr2 is not None and sr2[2] != "ScenarioError":
+                viols.append({"kind": "start_rejected_with_other_error",
+                              "features": {"api": s_.get("api"), "exc": sr2[2], "second_start_of_entry": True},
+                              "detail": {"sim": s_, "start_result": sr2}})
     if started and exp in ("ok",):
         # ---- requests seen by the stub
         for h in r.hist:
@@ -212,6 +234,10 @@ def run_case(case, prop) -> Dict[str, Any]:
                 viols.append({"kind": "simulator_error_replaced", "features": dict(feats, exc=f0["exc"], got=oc[1] if len(oc) > 1 else oc[0]),
                               "detail": {"sim": V, "outcome": list(oc)}})
             out["aborted"] += 1
+        elif oc[0] == "start_error" and oc[1] != sid and \
+                any(s_["sid"] == oc[1] and s_.get("cfg_entry") is not None and expected_start(s_) != "ok"
+                    for s_ in sc["sims"]):
+            st["second_start_rejected_as_expected"] = 1      # no run then
         elif oc[0] != "ok":
             viols.append({"kind": "run_failed_with_old_api", "features": dict(feats, outcome=oc[0]),
                           "detail": {"sim": V, "outcome": list(oc), "tb": (r.tb or "")[-600:]}})
@@ -257,6 +283,9 @@ def shrink_candidates(case, prop):
         sc2["conns"] = [dict(c, src=c["src"] - (c["src"] > i), dst=c["dst"] - (c["dst"] > i))
                         for c in sc2["conns"] if i not in (c["src"], c["dst"])]
         sc2["versioned"] = vi - (vi > i)
+        for s_ in sc2["sims"]:
+            if s_.get("cfg_entry") is not None:
+                s_["cfg_entry"] -= (s_["cfg_entry"] > i)
         yield {"scenario": sc2, "schedule": case["schedule"]}
     if sc["until"] > 1:
         sc2 = copy.deepcopy(sc)
